@@ -566,7 +566,7 @@ func TestC17(t *testing.T) {
 			}
 		}
 	}
-	ev.Parallel(ev.Pick(200, 6000), 8, func(i int) {
+	ev.Parallel(ev.Pick(200, 2000), 8, func(i int) {
 		g := rng.Sub(700000 + i)
 		var o outcome
 		name := ""
